@@ -646,6 +646,31 @@ func (e *Env) call(x *CallE) Val {
 		}
 		a, b := e.eval(x.Args[0]).(Sc), e.eval(x.Args[1]).(Sc)
 		return Sc{app("mod", SInt, a.T, b.T), types.Typ[types.Int]}
+	case "istype", "dyn":
+		// istype(x, "T"): the interface value x is non-nil and holds a T; dyn(x, "T"): the T it holds
+		if len(x.Args) != 2 {
+			cfail("%s(x, \"T\") takes two arguments", x.Fun)
+		}
+		lit, ok := x.Args[1].(*StrLit)
+		if !ok {
+			cfail("%s needs the type as a string literal", x.Fun)
+		}
+		t := fx.typeByName(e.pkg, lit.Val)
+		if t == nil || types.IsInterface(t) {
+			cfail("%s: %s is not a concrete type visible from the package", x.Fun, lit.Val)
+		}
+		hv := e.eval(x.Args[0])
+		if p, ok := hv.(PtrV); ok && p.Kind != pkHeap {
+			hv = fx.loadPtr(e.st, p)
+		}
+		h, ok := hv.(Sc)
+		if !ok || h.T.Sort != SInt {
+			cfail("%s: first argument is not an interface value", x.Fun)
+		}
+		if x.Fun == "istype" {
+			return Sc{fx.isType(h.T, t), boolTyp}
+		}
+		return fx.dynPayload(h.T, t)
 	case "pure0", "pure1":
 		// pureN("pkg.Func", args...): result N of a pure (trusted) library function
 		lit, ok := x.Args[0].(*StrLit)
@@ -709,6 +734,11 @@ func (e *Env) call(x *CallE) Val {
 		}
 		cfail("fresh needs a slice or pointer")
 	case "sameslice":
+		if sa, ok := e.eval(x.Args[0]).(StrV); ok {
+			// strings: the same substring of the same text (implies equal contents)
+			sb := e.eval(x.Args[1]).(StrV)
+			return Sc{And(Eq(sa.Base, sb.Base), Eq(sa.Off, sb.Off), Eq(sa.Len, sb.Len)), boolTyp}
+		}
 		a, b := e.eval(x.Args[0]).(SliceV), e.eval(x.Args[1]).(SliceV)
 		return Sc{And(Eq(a.Base, b.Base), Eq(a.Off, b.Off), Eq(a.Len, b.Len)), boolTyp}
 	case "samearray":
